@@ -312,6 +312,9 @@ func (a *NXActionConnTrack) UnmarshalBinary(data []byte) error {
 		if err != nil {
 			return errors.New("failed to decode actions")
 		}
+		if act.Len() == 0 {
+			return errors.New("the action list contains an action of size 0")
+		}
 		a.actions = append(a.actions, act)
 		n += int(act.Len())
 	}
